@@ -183,12 +183,18 @@ def run_case(case):
         obs["shared_encoder_calls"] = 1
     else:
         enc = ce.CompressedSegmentationEncoder(case["dtype"], C, block)
+    arr_before = arr.tobytes()
     try:
         buf = enc.encode(arr)
+        buf_again = enc.encode(arr)
     except Exception as exc:  # noqa: BLE001
         return {"violations": [{"kind": "encoder-raised",
                                 "detail": f"{ctx}: {type(exc).__name__}: {exc}"}], "obs": obs}
     buf = bytes(buf)
+    if arr.tobytes() != arr_before:
+        v.append({"kind": "encoder-modified-its-input", "detail": ctx})
+    if bytes(buf_again) != buf:
+        v.append({"kind": "second-encoding-of-the-same-chunk-differs", "detail": ctx})
     # (a) independent validator + decoder
     info = None
     try:
